@@ -472,9 +472,12 @@ func (rs *runState) runC16Layout(idx int, lay c16Layout) *violationT {
 	if len(lay.Names) > 0 && lay.Names[0] != "" {
 		gofile = lay.Names[0] + "_co.go"
 	}
+	// the tool is run in the package directory only: it loads ./..., so the files of the sub-package are
+	// derived by the same run (running it again inside the sub-package is part of the idempotence step)
+	secondRun := false
 	run := func() *cmdResult {
 		dirs := []string{filepath.Join(root, pkgDir)}
-		if subDir != "" {
+		if subDir != "" && secondRun {
 			dirs = append(dirs, filepath.Join(root, subDir))
 		}
 		for _, d := range dirs {
@@ -545,6 +548,7 @@ func (rs *runState) runC16Layout(idx int, lay c16Layout) *violationT {
 	}
 	// idempotence
 	snap1 := snapshot(base)
+	secondRun = true
 	if r := run(); r != nil {
 		return mk("second-run", "second cogen run failed: "+normDiag(r.out))
 	}
@@ -846,6 +850,7 @@ func interleaveProfile() *profile {
 	p := controlFlowProfile()
 	p.name = "interleave"
 	p.noMethods = true
+	p.w["range"] = 9 // the built-in range iterators are part of the per-iterator state
 	p.elems = []string{"int"}
 	p.nGens = [2]int{2, 2}
 	p.w["yieldfrom"] = 4
